@@ -471,8 +471,8 @@ class Engine:
                     for i, (_, fty) in enumerate(vdef[2]):
                         c = v.field(self, vn, i, subst_generics(fty, v.edef, v.ty))
                         self._bind_elem(c.get(self), backing.child(vn).child(i))
-        elif v is None or isinstance(v, Opaque):
-            pass
+        elif v is None or isinstance(v, (Opaque, Ref, FnItem, ClosureV, StrV)):
+            pass     # references / code pointers stored in a symbolic sequence are not tracked
         else:
             be = getattr(v, 'bind_elem', None)
             if be is None:
@@ -896,6 +896,9 @@ class Engine:
             if m.group(2) == 'MIN':
                 return bv(-(1 << (w - 1)) if sg else 0, w)
             return bv((1 << (w - 1)) - 1 if sg else (1 << w) - 1, w)
+        m = re.match(r'^ZeroSized: \{((?:closure|coroutine)@[^}]*)\}$', s)
+        if m:
+            return ClosureV(m.group(1), Struct('closure', []))
         if s.startswith('"'):
             return StrV(unescape(s[1:-1]))
         if s.startswith('b"'):
